@@ -165,6 +165,213 @@ func checkC08(c *Ctx) {
 	}
 	ea := newErrAnalysis(c, l)
 	ea.runE5("ERR-E5-sticky")
+	checkMergeOrder(c)
+}
+
+// checkMergeOrder decides the two-cursor merge predicate and the overlay
+// range filter of the index-plus-uncommitted-changes iterator over the
+// ordering domain {lt, eq, gt} × {ascending, descending}.
+func checkMergeOrder(c *Ctx) {
+	l := c.L
+	c.rule("ORDER-merge-predicate", "merge of persisted and uncommitted keys: decided for every ordering of the two cursors and both directions", 8)
+	next := l.Func("", "*UnsavedFastIterator.Next")
+	ctor := l.Func("", "NewUnsavedFastIterator")
+	fIdx := l.Field("", "UnsavedFastIterator", "nextUnsavedNodeIdx")
+	fAsc := l.Field("", "UnsavedFastIterator", "ascending")
+	if next == nil || ctor == nil || fIdx == nil || fAsc == nil {
+		c.anchorMissing("ORDER-merge-predicate", "UnsavedFastIterator.Next / NewUnsavedFastIterator / fields")
+		return
+	}
+	isUnsaved := func(v ssa.Value) bool { return strings.Contains(roleOf(l, v, "", 0), "unsavedFastNodesToSort") }
+	isDisk := func(v ssa.Value) bool {
+		r := roleOf(l, v, "", 0)
+		return strings.Contains(r, "fastIterator") || strings.Contains(r, "UnsafeBytesToStr")
+	}
+	mkEnv := func(ord int, asc bool) *ordEnv {
+		return &ordEnv{
+			cmp: func(x, y ssa.Value) (int, bool) {
+				switch {
+				case isDisk(x) && isUnsaved(y):
+					return ord, true
+				case isUnsaved(x) && isDisk(y):
+					return -ord, true
+				}
+				return 0, false
+			},
+			atom: func(v ssa.Value) (int, bool) {
+				if isLoadOfField(fAsc)(v) {
+					if asc {
+						return 1, true
+					}
+					return -1, true
+				}
+				return 0, false
+			},
+		}
+	}
+	// decision Ifs: conditions that become known once the ordering and the direction are fixed
+	type dec struct {
+		iff   *ssa.If
+		table [3][2]int // [ord+1][asc]
+		dirDependent bool
+	}
+	var decs []dec
+	for _, b := range next.Blocks {
+		iff := ifOf(b)
+		if iff == nil {
+			continue
+		}
+		var d dec
+		d.iff = iff
+		known := true
+		for oi, ord := range []int{-1, 0, 1} {
+			for ai, asc := range []bool{false, true} {
+				r := mkEnv(ord, asc).evalBool(iff.Cond, 0)
+				if r == 0 {
+					known = false
+				}
+				d.table[oi][ai] = r
+			}
+		}
+		if !known {
+			continue
+		}
+		for oi := range d.table {
+			if d.table[oi][0] != d.table[oi][1] {
+				d.dirDependent = true
+			}
+		}
+		decs = append(decs, d)
+	}
+	var merge, tie *dec
+	for i := range decs {
+		ordDependent := decs[i].table[0] != decs[i].table[1] || decs[i].table[1] != decs[i].table[2]
+		if decs[i].dirDependent && ordDependent && merge == nil {
+			merge = &decs[i]
+		}
+		if !decs[i].dirDependent && decs[i].table[1][0] > 0 && decs[i].table[0][0] < 0 && decs[i].table[2][0] < 0 {
+			tie = &decs[i]
+		}
+	}
+	if merge == nil {
+		// a predicate that does not depend on the direction cannot be right
+		c.bad("ORDER-merge-predicate", "UnsavedFastIterator.Next merge decision", l.pos(next.Pos()), "no branch over the two cursors' keys that depends on the direction was found")
+	} else {
+		// true edge must be the `uncommitted entry is next` branch: it advances the overlay cursor
+		advances := false
+		searchFrom([]point{blockStart(merge.iff.Block().Succs[0])}, func(in ssa.Instruction) bool {
+			if isStoreToField(in, fIdx) {
+				advances = true
+				return true
+			}
+			_, isRet := in.(*ssa.Return)
+			return isRet
+		})
+		want := [3][2]int{{1, -1}, {1, 1}, {-1, 1}} // [lt,eq,gt][desc,asc]: uncommitted entry first?
+		names := []string{"disk < overlay", "disk == overlay", "disk > overlay"}
+		dirs := []string{"descending", "ascending"}
+		c.decide("ORDER-merge-predicate", "merge branch advances the overlay cursor", l.ipos(merge.iff), advances, "true edge consumes the uncommitted entry", "the branch taken when the predicate holds does not consume the uncommitted entry")
+		for oi := range want {
+			for ai := range want[oi] {
+				got := merge.table[oi][ai]
+				c.decide("ORDER-merge-predicate", "merge: "+names[oi]+", "+dirs[ai], l.ipos(merge.iff), got == want[oi][ai],
+					"uncommitted entry "+map[int]string{1: "first", -1: "after the persisted one"}[want[oi][ai]],
+					"for "+names[oi]+" while iterating "+dirs[ai]+" the uncommitted entry is "+map[int]string{1: "taken first", -1: "taken after the persisted one"}[got]+": order / currency of the merged iteration is wrong (on a tie the stale persisted copy is yielded, then the key again)")
+			}
+		}
+	}
+	okTie := false
+	if tie != nil && merge != nil && edgeDominates(merge.iff.Block(), 0, tie.iff.Block()) {
+		// the tie branch skips the persisted copy: calls Next on the wrapped iterator
+		searchFrom([]point{blockStart(tie.iff.Block().Succs[0])}, func(in ssa.Instruction) bool {
+			if cc := callCommon(in); cc != nil && cc.IsInvoke() && cc.Method.Name() == "Next" {
+				okTie = true
+				return true
+			}
+			if isStoreToField(in, fIdx) {
+				return true
+			}
+			return false
+		})
+	}
+	c.decide("ORDER-merge-predicate", "tie: the persisted copy is skipped", l.pos(next.Pos()), okTie, "on equal keys the wrapped iterator is advanced past the stale copy", "on equal keys the persisted copy is not skipped: the key is yielded twice")
+
+	// overlay range filter in the constructor's Range callback
+	var cb *ssa.Function
+	for _, af := range ctor.AnonFuncs {
+		if len(callsIn(af, predFuncString("bytes.Compare"))) >= 2 {
+			cb = af
+		}
+	}
+	if cb == nil {
+		c.anchorMissing("ORDER-merge-predicate", "overlay range filter callback")
+		return
+	}
+	isAppendStore := func(in ssa.Instruction) bool {
+		st, ok := in.(*ssa.Store)
+		if !ok {
+			return false
+		}
+		call, ok := st.Val.(*ssa.Call)
+		if !ok {
+			return false
+		}
+		b, ok := call.Call.Value.(*ssa.Builtin)
+		return ok && b.Name() == "append"
+	}
+	for _, bound := range []string{"start", "end"} {
+		for _, ord := range []int{-1, 0, 1} {
+			env := &ordEnv{cmp: func(x, y ssa.Value) (int, bool) {
+				if strings.HasSuffix(roleOf(l, y, "", 0), bound) {
+					return ord, true
+				}
+				return 0, false
+			}}
+			// walk from entry following decided branches; unknown branches (nil tests, the other bound) take the edge towards the append
+			kept := false
+			b := cb.Blocks[0]
+			for steps := 0; steps < 64 && b != nil; steps++ {
+				stop := false
+				for _, in := range b.Instrs {
+					if isAppendStore(in) {
+						kept, stop = true, true
+					}
+					if _, isRet := in.(*ssa.Return); isRet {
+						stop = true
+					}
+				}
+				if stop {
+					break
+				}
+				if iff := ifOf(b); iff != nil {
+					r := env.evalBool(iff.Cond, 0)
+					switch {
+					case r > 0:
+						b = b.Succs[0]
+					case r < 0:
+						b = b.Succs[1]
+					default:
+						// undecided test: prefer the successor from which the append is reachable without a decided branch
+						nb := b.Succs[1]
+						if v, nn, ok := nilCond(iff.Cond); ok && v != nil {
+							nb = b.Succs[nn] // bound present
+						}
+						b = nb
+					}
+					continue
+				}
+				if len(b.Succs) == 1 {
+					b = b.Succs[0]
+				} else {
+					break
+				}
+			}
+			want := (bound == "start" && ord >= 0) || (bound == "end" && ord < 0)
+			names := map[int]string{-1: "key < " + bound, 0: "key == " + bound, 1: "key > " + bound}
+			c.decide("ORDER-merge-predicate", "overlay filter: "+names[ord], l.pos(cb.Pos()), kept == want,
+				map[bool]string{true: "kept", false: "dropped"}[want], "an uncommitted key with "+names[ord]+" is "+map[bool]string{true: "kept", false: "dropped"}[kept]+" by the range filter; the range is start <= k < end")
+		}
+	}
 }
 
 func isBoolResult(t types.Type) bool {
